@@ -640,5 +640,49 @@ def handlePublishBatch (verify : VerifyFn) (sum : SumFn) (mid : Bytes → Bytes)
     let (r2, rest) := handlePublishBatch verify sum mid r1 prevHop ms
     (r2, (m, res, fw) :: rest)
 
+/-! ## Part 10 — `streamHandler.handleSubscriptions` on the WHOLE table `m.peerChannels` (C28, wave 5):
+several (peer, link) tuples recorded under several channels; a packet of subscription entries from
+the session of tuple `p`. Channel 0 stands for the empty channel id (entry skipped). A key that is
+absent (`none`) is distinguished from an empty inner map, as in Go. -/
+namespace RecvTbl
+
+abbrev Tbl := Nat → Option (List Nat)      -- channel ↦ recorded tuples (`none`: no key)
+
+def set (t : Tbl) (ch : Nat) (v : Option (List Nat)) : Tbl := fun c => if c = ch then v else t c
+
+/-- one `SubscriptionOpts` entry -/
+def handleOne (t : Tbl) (p ch : Nat) (b : Bool) : Tbl :=
+  if ch = 0 then t
+  else if b then
+    match t ch with
+    | none => set t ch (some [p])                                   -- make + insert
+    | some cm => if cm.contains p then t else set t ch (some (p :: cm))
+  else
+    match t ch with
+    | none => t                                                     -- `continue`
+    | some tm =>
+      let tm' := tm.filter (· ≠ p)                                  -- `delete(tm, s.tpl)` if present
+      if tm'.isEmpty then set t ch none else set t ch (some tm')    -- `len(tm) == 0` ⇒ delete the key
+
+def handle (t : Tbl) (p : Nat) (subs : List (Nat × Bool)) : Tbl :=
+  subs.foldl (fun t s => handleOne t p s.1 s.2) t
+
+/-- tuple `q` is recorded as a subscriber of `ch` -/
+def recorded (t : Tbl) (ch q : Nat) : Bool :=
+  match t ch with
+  | some l => l.contains q
+  | none => false
+
+/-- the variant with a "last subscriber" fast path in the unsubscribe branch (refuted) -/
+def handleOneFast (t : Tbl) (p ch : Nat) (b : Bool) : Tbl :=
+  if ch = 0 then t
+  else if b then handleOne t p ch b
+  else
+    match t ch with
+    | none => t
+    | some tm => if tm.length ≤ 1 then set t ch none else handleOne t p ch b
+
+end RecvTbl
+
 end Pubsub
 end Bifrost
